@@ -163,7 +163,7 @@ STRENGTHENED.update({
     "c12-16": "C12 missed it at first; new kind c12.touched: number literals with hostile spellings (negative zeros with fractions and exponents, underflowing and overflowing values, trailing zeros) touched by one of 31 operations, written under 6 output modes and YAML, read back, and `tojson | fromjson | tojson` compared",
     "c15-17": "filed under C15 by its author, whose model has no YAML output; c12.streams caught it after inputs that fail or halt before, between and after their values (256 shapes of 4 inputs) were added",
     "c16-17": "C16 missed it at first; new kind c16.procfs: /proc/version (reported size 0) under -Rs, -R, --rawfile, between other files and as a redirected standard input",
-    "c17-16": "C17 missed it at first; a zero width no-break space (U+FEFF) inside quoted YAML scalars and in the alphabets of the JSON and query generators (documents the YAML decoder itself rejects without the fault are inconclusive)",
+    "c17-16": "C17 missed it at first; new kind c17.yamlfixed: twelve hand-written YAML streams with U+FEFF inside scalars, in comments and as byte order marks of later documents (the random generator cannot carry the character: the YAML decoder itself misreads some valid documents that contain it); U+FEFF also joined the alphabets of the JSON and query generators",
     "c19-16": "filed under C19 by its author; it is the mechanism of c18-15 (a repeated global variable name shifting what modules see), which C18 catches",
     "c20-16": "caught by a single case at first; ten loop forms whose turns evaluate a path expression that forks while it is tracked were added",
 })
